@@ -280,6 +280,9 @@ pub fn run(ctx: &'static Ctx) -> (&'static str, Value, Vec<&'static str>) {
             let n = short_read_check(ctx, "decode_digital_radar_data", &bytes, true, |r: &mut SplitReader| drd::decode_digital_radar_data(r).ok().map(&digest), |shape| json!({"kinds": kinds, "layout": layout, "gates": 9, "ws": 16, "plan": 0, "start": 0, "short_read_boundaries": shape.0, "max_chunk": shape.1}));
             ssr.evaluations += n;
             ssr.count("short_read_shapes", n);
+            let n = crate::guard::two_actor_check(ctx, "decode_digital_radar_data", &bytes, 48, |r: &mut SplitReader| drd::decode_digital_radar_data(r).ok().map(&digest), |mode, k| json!({"op": "two_actor", "kinds": kinds, "layout": layout, "mode": mode, "read_call": k}));
+            ssr.evaluations += n;
+            ssr.count("two_actor_schedules", n);
         }
     }
     let stats = stats.merge(ssr);
@@ -307,6 +310,10 @@ pub fn run(ctx: &'static Ctx) -> (&'static str, Value, Vec<&'static str>) {
 }
 
 pub fn replay(ctx: &'static Ctx, case: &Value) {
+    if case["op"].as_str() == Some("two_actor") {
+        let _ = run(ctx);
+        return;
+    }
     let c = Case::from_json(case);
     let o = check_case(ctx, &c);
     println!("replay C02 {:?} -> {}", c, o);
